@@ -40,6 +40,8 @@ std::vector<Extra> extras()
     E.push_back({"beatgrid", "64 markers", [](dj::track_snapshot& s) { s.beatgrid.clear(); for (int i = 0; i < 64; ++i) s.beatgrid.push_back({i * 4 - 4, 10.5 + 1000.0 * i}); }, true, true});
     E.push_back({"beatgrid", "32768 markers (the 1.x decoder's limit)", [](dj::track_snapshot& s) { s.beatgrid.clear(); for (int i = 0; i < 32768; ++i) s.beatgrid.push_back({i, 10.5 + 100.0 * i}); }, true, true});
     E.push_back({"beatgrid", "32769 markers", [](dj::track_snapshot& s) { s.beatgrid.clear(); for (int i = 0; i < 32769; ++i) s.beatgrid.push_back({i, 10.5 + 100.0 * i}); }, false, true});
+    E.push_back({"beatgrid", "two markers at the same offset", [](dj::track_snapshot& s) { s.beatgrid = {{0, 1000.0}, {4, 1000.0}, {8, 5000.0}}; }, false, true});
+    E.push_back({"beatgrid", "two markers with the same index", [](dj::track_snapshot& s) { s.beatgrid = {{0, 1000.0}, {0, 2000.0}, {8, 5000.0}}; }, false, true});
     E.push_back({"beatgrid", "unsorted", [](dj::track_snapshot& s) { s.beatgrid = {{4, 100.0}, {0, 50.0}}; }, false, true});
     E.push_back({"waveform", "one entry", [](dj::track_snapshot& s) { s.waveform.assign(1, dj::waveform_entry{{9, 9}, {8, 8}, {7, 7}}); }, false, true});
     E.push_back({"waveform", "recommended size + 1", [](dj::track_snapshot& s) { s.waveform.push_back(dj::waveform_entry{}); }, false, true});
